@@ -16,11 +16,13 @@ def fam(cfg: dict[str, Any], alphabet: list[str], depth: int,
         micro: list[int] | None = None, sched_args: list[int] | None = None,
         exhaustive: bool = True, num: int = 0, spec_depth: int | None = None,
         strict: bool = False, replay_cfgs: list[dict[str, Any]] | None = None,
+        save_args: tuple = (True, False), load_args: tuple = (True, False),
         ) -> dict[str, Any]:
     """replay_cfgs: configurations under which the generated behaviours are
     replayed (default: the generating one); they must agree with cfg on every
     field KfacRef depends on (intervals, hooks, hyper-parameters)."""
-    return {'strict': strict, 'replay_cfgs': replay_cfgs, 'cfg': cfg, 'alphabet': alphabet, 'depth': depth,
+    return {'strict': strict, 'replay_cfgs': replay_cfgs, 'cfg': cfg,
+            'ckw': {'save_args': save_args, 'load_args': load_args}, 'alphabet': alphabet, 'depth': depth,
             'micro': micro or [1], 'sched_args': sched_args or [-1],
             'exhaustive': exhaustive, 'num': num,
             'spec_depth': spec_depth or depth}
@@ -33,14 +35,14 @@ def _tlc_family(arg: tuple[dict[str, Any], int, bool]) -> dict[str, Any]:
     if do_spec:
         r = refreplay.check_spec(cfg, f['alphabet'], f['micro'],
                                  f['sched_args'], f['spec_depth'], workers=2,
-                                 strict=f['strict'])
+                                 strict=f['strict'], **f['ckw'])
         out['spec'] = {'ok': r.ok, 'violated': r.violated,
                        'distinct': r.distinct, 'generated': r.generated,
                        'error': r.error_text[:1200]}
     hs, r = refreplay.gen_behaviours(
         cfg, f['alphabet'], f['micro'], f['sched_args'], f['depth'],
         f['num'], seed, exhaustive=f['exhaustive'], timeout=1800,
-        strict=f['strict'])
+        strict=f['strict'], **f['ckw'])
     out['hs'] = hs
     out['gen'] = {'distinct': r.distinct, 'generated': r.generated}
     return out
